@@ -224,7 +224,11 @@ macro_rules! run_srt {
                 // more.  No ring expectation exists there; the constructors must agree with each other and the decomposition must rebuild the
                 // transform, column by column relative to the column's own scale, to 64 epsilon
                 let eps = <$S>::EPSILON as f64;
-                let q = $Q::from_euler(EulerRot::XYZ, sd[0] + 0.3, sd[1] - 0.2, sd[2] + 0.45);
+                // 24 rotations per case: the grid seed shifted by (0.3, -0.2, 0.45) + k (0.37, 0.61, 0.23) rad -- a sign rule that goes wrong for a
+                // few percent of the rotations (a mistyped cofactor) needs more than one sample per scale pattern
+                for kq in 0..24 {
+                let kf = kq as $S;
+                let q = $Q::from_euler(EulerRot::XYZ, sd[0] + 0.3 + 0.37 * kf, sd[1] - 0.2 + 0.61 * kf, sd[2] + 0.45 + 0.23 * kf);
                 let so = [((sc[0] * 0.7) as $S) as f64, ((sc[1] * 1.3) as $S) as f64, ((sc[2] * 1.1) as $S) as f64];
                 let s = $V3::new(so[0] as $S, so[1] as $S, so[2] as $S);
                 let t = $V3::new(tr[0] as $S, tr[1] as $S, tr[2] as $S);
@@ -246,6 +250,7 @@ macro_rules! run_srt {
                     near($cx, $c, "to_scale_rotation_translation: scale relative (off-grid)", who, &[1.0, 1.0, 1.0], &[s2v[0] / ds[0], s2v[1] / ds[1], s2v[2] / ds[2]], 16.0 * eps);
                     let back = m3_of4(&f64s!($M4::from_scale_rotation_translation(s2, r2, t2).to_cols_array()));
                     near($cx, $c, "to_scale_rotation_translation -> recompose (off-grid, per column relative)", who, &relcols(&m4l), &relcols(&back), 64.0 * eps);
+                }
                 }
             } else {
             let q = $Q::from_euler(EulerRot::XYZ, sd[0], sd[1], sd[2]);
